@@ -3,6 +3,8 @@ package wallet
 import (
 	"bytes"
 	"fmt"
+	"os"
+	"path/filepath"
 	"testing"
 
 	"pgregory.net/rapid"
@@ -19,7 +21,7 @@ import (
 	"verif/harness/internal/ref/txref"
 )
 
-const ruleC13 = "wallets of every type (deterministic, bip44 with external and change addresses, collection; xpub and encrypted wallets as negative cases) with 1-4 entries; transactions with 1-6 inputs whose owners are drawn from the wallet's addresses and from foreign keys (repeated owners allowed), some inputs pre-signed by their real owners; index selections: none (= all unsigned), a subset, all unsigned, out of range, negative, duplicates, an already-signed index, more indexes than inputs; corrupted inner hash / empty signature array / wrong number of outputs passed; oracle: predicted success <=> wallet can sign, transaction is in the documented shape and the wallet holds the key of every addressed input; on success exactly the addressed inputs changed from null to a signature that verifies against the spent output's address (code verifier and textbook curve), everything else bit-identical; on failure an error, never a panic; the input transaction object is never modified; non-trivial = partial selection or mixed ownership; distinct by (wallet type, owners, pre-signed set, selection)"
+const ruleC13 = "wallets of every type (deterministic, bip44 with external and change addresses, collection; xpub and encrypted wallets as negative cases) with 1-4 entries, optionally saved, loaded again from the file and grown, optionally locked, grown and unlocked before signing; transactions with 1-6 inputs whose owners are drawn from the wallet's addresses and from foreign keys (repeated owners allowed), some inputs pre-signed by their real owners; index selections: none (= all unsigned), a subset, all unsigned, out of range, negative, duplicates, an already-signed index, more indexes than inputs; corrupted inner hash / empty signature array / wrong number of outputs passed; oracle: predicted success <=> wallet can sign, transaction is in the documented shape and the wallet holds the key of every addressed input; on success exactly the addressed inputs changed from null to a signature that verifies against the spent output's address (code verifier and textbook curve), everything else bit-identical; on failure an error, never a panic; the input transaction object is never modified; non-trivial = partial selection or mixed ownership; distinct by (wallet type, owners, pre-signed set, selection)"
 
 func TestC13_SignTransaction(t *testing.T) {
 	r := ev.Get("C13")
@@ -32,6 +34,30 @@ func TestC13_SignTransaction(t *testing.T) {
 		if kind == kBip && rapid.Bool().Draw(t, "change") {
 			if _, err := w.GenerateAddresses(wallet.OptionGenerateN(2), wallet.OptionChange()); err != nil {
 				t.Fatal(err)
+			}
+		}
+		// wallet history before signing: the wallet was saved, loaded again from its file and grew afterwards
+		reloaded := false
+		if kind != kXpub && rapid.IntRange(0, 2).Draw(t, "reload") == 0 {
+			dir := hx.TempDir("c13reload")
+			if err := wallet.Save(w, dir); err != nil {
+				t.Fatalf("save: %v", err)
+			}
+			lw, err := wallet.Load(filepath.Join(dir, w.Filename()))
+			os.RemoveAll(dir)
+			if err != nil {
+				t.Fatalf("a saved wallet does not load: %v", err)
+			}
+			w = lw
+			reloaded = true
+			if kind == kDet || kind == kBip {
+				opts := []wallet.Option{wallet.OptionGenerateN(uint64(rapid.IntRange(1, 3).Draw(t, "reload_grow_n")))}
+				if kind == kBip && rapid.Bool().Draw(t, "reload_grow_change") {
+					opts = append(opts, wallet.OptionChange())
+				}
+				if _, err := w.GenerateAddresses(opts...); err != nil {
+					t.Fatalf("generate after reload: %v", err)
+				}
 			}
 		}
 		// wallet history before signing: the wallet was locked, grew while locked (keys of the new entries are derived at
@@ -242,6 +268,9 @@ func TestC13_SignTransaction(t *testing.T) {
 			}
 		}
 		nt := sel == "subset" || mixed || len(presigned) > 0
+		if reloaded {
+			r.Count("wallet_reloaded_from_file_and_grown")
+		}
 		if grewLocked {
 			r.Count("wallet_grew_while_locked")
 		}
